@@ -24,6 +24,41 @@ extern char const* const    g_binary_name;
 
 using namespace sim;
 
+// ---- the global heap as a seam.  Calls made while a library operation executes (World::in_op, not from harness code) are either
+// served from arena 0 of the simulated memory (backends over std::allocator: World::heap_route) - blocks with guard zones, a
+// ledger entry, the ALLOC_FAIL fault point - or counted (all other backends: an operation over a simulated allocator has no
+// business on the global heap unless its element type owns heap state).  Everything else is plain malloc/free.
+static inline bool heap_seam_active() { return (W.in_op || (W.force_route > 0 && W.heap_route)) && W.harness_depth == 0 && W.region != nullptr; }
+void* operator new(std::size_t n) {
+	if(heap_seam_active()) {
+		if(W.heap_route) return W.allocate(0, n, 1);
+		++W.heap_allocs_in_op;
+	}
+	void* p = std::malloc(n != 0 ? n : 1);
+	if(p == nullptr) throw std::bad_alloc{};
+	return p;
+}
+void* operator new[](std::size_t n) { return ::operator new(n); }
+void  operator delete(void* p) noexcept {
+	if(p == nullptr) return;
+	if(W.region != nullptr && W.in_region(p)) {
+		int const id = W.find_block(p);
+		W.deallocate(0, p, id >= 0 ? W.blocks[static_cast<std::size_t>(id)].n : 0, 1);  // unsized form: nothing to compare the size with
+		return;
+	}
+	std::free(p);
+}
+void operator delete(void* p, std::size_t n) noexcept {
+	if(p == nullptr) return;
+	if(W.region != nullptr && W.in_region(p)) {
+		W.deallocate(0, p, n, 1);
+		return;
+	}
+	std::free(p);
+}
+void operator delete[](void* p) noexcept { ::operator delete(p); }
+void operator delete[](void* p, std::size_t n) noexcept { ::operator delete(p, n); }
+
 static std::string jesc(std::string const& s) {
 	std::string o;
 	for(char c : s) {
